@@ -267,6 +267,21 @@ def run_entries(desc):
     bad, text = roundtrip(entries, sort=desc['sort'])
     if bad is not None:
         return violation(bad[1], sig=bad[0], classes=classes)
+    # the same entry objects after their path was changed (as save_manifests
+    # does when a Manifest is renamed): the new path must be what is written
+    renamed = False
+    for e, d in zip(entries, desc['entries']):
+        if d['tag'] in ('MANIFEST', 'DATA', 'IGNORE', 'MISC', 'EBUILD'):
+            e.path = (e.path + '.gz' if d['tag'] == 'MANIFEST'
+                      else 'new\\x/' + e.path)
+            renamed = True
+    if renamed:
+        bad, text = roundtrip(entries, sort=desc['sort'])
+        if bad is not None:
+            return violation('after changing .path of dumped entries: '
+                             + bad[1], sig='stale-after-path-change:'
+                             + bad[0], classes=classes)
+        classes.append('path-changed-between-dumps')
     nontrivial = (len(entries) >= 2
                   or any(needs_esc(d) for d in desc['entries']))
     return ok(nontrivial=nontrivial, classes=classes)
